@@ -65,7 +65,7 @@ pub fn vector_set(vm: &mut Vm) -> Result<VCell, Error> {
     let value = vm.stack.pop()?.clone();
     let idx = pop_index(vm, "vector-set!")?;
     let vector = pop_vector(vm)?;
-    if idx > vector.len() - 1 {
+    if idx >= vector.len() {
         return Err(InvalidVectorIndex(idx, vector.len()));
     }
     vector.put(idx, value);
@@ -135,7 +135,7 @@ pub fn vector_copy(vm: &mut Vm) -> Result<VCell, Error> {
     let vector = vector.as_ref();
 
     match (start, end) {
-        (Some(start), _) if start > vector.len() - 1 => {
+        (Some(start), _) if start > vector.len() => {
             return Err(InvalidVectorIndex(start, vector.len()));
         }
         (_, Some(end)) if end > vector.len() => {
@@ -172,12 +172,12 @@ pub fn vector_mut_copy(vm: &mut Vm) -> Result<VCell, Error> {
     let to_vector = pop_vector(vm)?;
     let to_vector = to_vector.as_ref();
 
-    if at > to_vector.len() - 1 {
+    if at > to_vector.len() {
         return Err(InvalidVectorIndex(at, to_vector.len()));
     }
 
     match (start, end) {
-        (Some(start), _) if start > from_vector.len() - 1 => {
+        (Some(start), _) if start > from_vector.len() => {
             return Err(InvalidVectorIndex(start, from_vector.len()));
         }
         (_, Some(end)) if end > from_vector.len() => {
@@ -192,13 +192,17 @@ pub fn vector_mut_copy(vm: &mut Vm) -> Result<VCell, Error> {
     let start = start.unwrap_or(0);
     let end = end.unwrap_or_else(|| from_vector.len());
 
-    if ((end - start) > to_vector.len()) || (at + end) > to_vector.len() {
+    if (end - start) > (to_vector.len() - at) {
         return Err(InvalidSyntax("vector-copy!: to vector is too small".into()));
     }
 
-    for i in start..end {
-        let val = from_vector.get(i).unwrap();
-        to_vector.put(i + at, val);
+    // Copy the source range out first: source and destination may be the
+    // same vector with overlapping ranges
+    let values = (start..end)
+        .map(|i| from_vector.get(i).unwrap())
+        .collect::<Vec<_>>();
+    for (i, val) in values.into_iter().enumerate() {
+        to_vector.put(at + i, val);
     }
 
     Ok(VCell::Void)
